@@ -215,6 +215,9 @@ VARIANTS = [
     V( 'cip-types-validators-made-in-loop', CLIENT, "def parse_operations( tags, fragment=False, int_type=None, **kwds ):", "for _int,_lo,_hi in (( parser.USINT, 0, 2**8-1 ), ( parser.UINT, 0, 2**16-1 )):\n    CIP_TYPES[_int.__name__]	= ( _int.tag_type, _int.struct_calcsize, lambda x: int_validate( x, _lo, _hi ))\n\ndef parse_operations( tags, fragment=False, int_type=None, **kwds ):", fires=[ 'W-LATEBIND' ], why='round 13 C12/1' ),
     V( 'cip-types-validators-made-in-comprehension', CLIENT, "def parse_operations( tags, fragment=False, int_type=None, **kwds ):", "CIP_TYPES.update( dict( [ ( _int.__name__, ( _int.tag_type, _int.struct_calcsize, lambda x: int_validate( x, _lo, _hi ))) for _int,_lo,_hi in (( parser.USINT, 0, 2**8-1 ), ( parser.UINT, 0, 2**16-1 )) ] ))\n\ndef parse_operations( tags, fragment=False, int_type=None, **kwds ):", fires=[ 'W-LATEBIND' ] ),
     V( 'cip-types-validators-bound-by-default', CLIENT, "def parse_operations( tags, fragment=False, int_type=None, **kwds ):", "for _int,_lo,_hi in (( parser.USINT, 0, 2**8-1 ), ( parser.UINT, 0, 2**16-1 )):\n    CIP_TYPES[_int.__name__]	= ( _int.tag_type, _int.struct_calcsize, lambda x, _lo=_lo, _hi=_hi: int_validate( x, _lo, _hi ))\n\ndef parse_operations( tags, fragment=False, int_type=None, **kwds ):", silent=[ 'W-LATEBIND' ] ),
+    V( 'path-elements-inner-range-accepted', DEVICE, "assert c in (None,1), \"Only final path segment may specify multiple elements: %r\" % ( path )", "assert c in (None,1,2), \"Only final path segment may specify multiple elements: %r\" % ( path )", fires=[ 'T-PATHELEMS' ] ),
+    V( 'path-elements-earlier-terms-dropped', DEVICE, "segments	       += s\n s,elm,cnt", "segments		= s\n    s,elm,cnt", fires=[ 'T-PATHELEMS' ] ),
+    V( 'path-elements-split-into-list', DEVICE, "p				= path.split( '.' )", "p				= list( path.split( '.' ))", silent=[ 'T-PATHELEMS' ] ),
     V( 'path-component-second-element-segment', DEVICE, "if not segments or 'element' not in segments[-1]:\n segments.append( {} )\n segments[-1]['element']	= elm", "segments.append( { 'element': elm } )", fires=[ 'T-PATHCOMP' ], why='round 13 C12/2' ),
     V( 'path-component-element-replaced-otherwise', DEVICE, "if not segments or 'element' not in segments[-1]:\n segments.append( {} )\n segments[-1]['element']	= elm", "if segments and 'element' in segments[-1]:\n            segments[-1]	= { 'element': elm }\n        else:\n            segments.append( { 'element': elm } )", silent=[ 'T-PATHCOMP' ] ),
     V( 'path-component-range-count-off-by-one', DEVICE, "cnt			= lst + 1 - elm", "cnt			= lst - elm", fires=[ 'T-PATHCOMP' ] ),
